@@ -90,3 +90,30 @@ fn count_arithmetic_matches_tex() {
         }
     } }
 }
+
+/// \advance on glue: TeX.2021.1239 - widths add; a component of the increment with a zero value counts as finite; equal
+/// orders add; a HIGHER order of the old value wins only if its value is non-zero; otherwise the increment's component stays
+#[test]
+fn glue_advance_matches_tex() {
+    std::panic::set_hook(Box::new(|_| {}));
+    // (value in pt, order) of one stretch / shrink component
+    let comps: [(i64, usize); 7] = [(0, 0), (2, 0), (-2, 0), (0, 1), (3, 1), (0, 2), (5, 3)];
+    let unit = |o: usize| ["pt", "fil", "fill", "filll"][o];
+    let show = |v: i64, o: usize| format!("{v}.0{}", unit(o));
+    let mut failures = 0;
+    for old in comps { for inc in comps { for which in ["plus", "minus"] {
+        let src = format!(r"\skip1=1pt {which} {}{} \advance\skip1 by 2pt {which} {}{}\relax \the\skip1", old.0, unit(old.1), inc.0, unit(inc.1));
+        // q = increment, r = old value
+        let (mut qv, mut qo) = inc;
+        if qv == 0 { qo = 0; }
+        if qo == old.1 { qv += old.0; } else if qo < old.1 && old.0 != 0 { qv = old.0; qo = old.1; }
+        let want = if qv == 0 { "3.0pt".to_string() } else { format!("3.0pt {which} {}", show(qv, qo)) };
+        let got = run(&src);
+        if !matches!(&got, Some(Ok(out)) if out.trim() == want) {
+            let obs = match &got { None => "panic".to_string(), Some(Ok(o)) => format!("prints {}", o.trim()), Some(Err(_)) => "reports an error".to_string() };
+            println!("WITNESS {{\"fn\": \"wrapping_add\", \"unit_fns\": [\"apply\", \"wrapping_add\"], \"source\": \"{}\", \"observed\": \"{obs}\", \"expected\": \"{want} (TeX.2021.1239)\"}}", src.replace('\\', "\\\\"));
+            failures += 1;
+            if failures >= 6 { return; }
+        }
+    } } }
+}
